@@ -93,6 +93,14 @@ pub struct ChannelState { pub awaiting_remote_revoke: bool }
 impl ChannelState {
     #[verifier::external_body] pub fn is_awaiting_remote_revoke(&self) -> (r: bool) ensures r == self.awaiting_remote_revoke { unimplemented!() }
     #[verifier::external_body] pub fn clear_awaiting_remote_revoke(&mut self) ensures !final(self).awaiting_remote_revoke { unimplemented!() }
+    // other state predicates a guard could be written with (environment completeness): unconstrained, except that a channel that can
+    // generate a new commitment is by definition (channel.rs: can_generate_new_commitment) not awaiting a remote revocation
+    #[verifier::external_body] pub fn can_generate_new_commitment(&self) -> (r: bool) ensures r ==> !self.awaiting_remote_revoke { unimplemented!() }
+    #[verifier::external_body] pub fn is_monitor_update_in_progress(&self) -> (r: bool) { unimplemented!() }
+    #[verifier::external_body] pub fn is_peer_disconnected(&self) -> (r: bool) { unimplemented!() }
+    #[verifier::external_body] pub fn is_quiescent(&self) -> (r: bool) { unimplemented!() }
+    #[verifier::external_body] pub fn is_local_stfu_sent(&self) -> (r: bool) { unimplemented!() }
+    #[verifier::external_body] pub fn is_remote_stfu_sent(&self) -> (r: bool) { unimplemented!() }
 }
 // CounterpartyCommitmentSecrets::provide_secret is verified in unit u05a; here only what it was asked to store is recorded
 pub struct CounterpartyCommitmentSecrets { pub asked: Ghost<Seq<(u64, [u8; 32])>> }
